@@ -9,7 +9,7 @@ UNITS = [1, 2, 4, 8, 16, 24, 32, 40, 48]            # legal frame sizes in 2.5 m
 PATH_KIND = {"N": 1, "S": 0, "X": 2}
 
 THEOREMS = "Ranges MemSafe GetTotal ValidIsWritten OffsetRange KeepsTime NeverOvertakes NoDrift ResetIsInit MultiFrameSame FullPieceLemma FeedIsPieces"
-WITNESSES = ["NoLap", "NeverInvalid", "NeverDrift", "NeverFull", "NeverManyWin"]
+WITNESSES = ["NoLap", "NeverInvalid", "NeverDrift", "NeverFull", "NeverManyWin", "ReadsOnlyWritten"]
 
 
 def mc_cfg(ctx, name, **c):
@@ -33,22 +33,36 @@ def model_runs(ctx):
     q = ctx.tier == "quick"
     allu = S(UNITS)
     runs = []
-    # (a) the real ring, callers that keep their look-ahead promise: every theorem incl. NoDrift
-    runs.append(("consistent", dict(CountMax=17, DS=100, FsC=S([48000] if q else FS),
-                                    LookAheads=S([0, 800] if q else [0, 1, 3, 8, 40, 100, 800]),
-                                    FrameSel=S([1, 8, 48]) if q else allu, Paths=S(["N"]), Consistent="TRUE",
-                                    AheadCap=100000, WithBareGet="FALSE", inv=THEOREMS), None))
+    # (a) the real ring, callers that keep their look-ahead promise: every theorem incl. NoDrift.  In 2.5 ms units the three
+    #     sampling rates drive the machine identically (To24(Fs, n*Fs/400) = 60 n): thorough closes the larger grids at 48 kHz and
+    #     the quick grid at each of the other two rates
+    def cons(fsc, las, sel):
+        return dict(CountMax=17, DS=100, FsC=S(fsc), LookAheads=S(las), FrameSel=S(sel), Paths=S(["N"]), Consistent="TRUE",
+                    AheadCap=100000, WithBareGet="FALSE", inv=THEOREMS)
+    if q:
+        runs.append(("consistent", cons([48000], [0, 800], [1, 8, 48]), None))
+    else:
+        runs.append(("consistent_48k", cons([48000], [0, 8, 800], [1, 4, 8, 24, 48]), None))
+        runs.append(("consistent_48k_all_frame_sizes", cons([48000], [0, 1], UNITS), None))
+        runs.append(("consistent_16k_24k", cons([16000, 24000], [0, 800], [1, 8, 48]), None))
     # (b) any mix of calls (look-ahead withdrawn, bare reads): everything but NoDrift, up to a little over one lap
     #     (quick: a ring of 20 slots - both look-ahead thresholds of tonality_get_info, 10 and 15, are still inside it)
-    runs.append(("free", dict(CountMax=17, DS=20 if q else 100, FsC=S([48000] if q else FS),
-                              LookAheads=S([0, 8, 800] if q else [0, 1, 8, 40, 800]),
-                              FrameSel=S([8, 48] if q else [1, 8, 24, 48]), Paths=S(["N"]), Consistent="FALSE",
+    runs.append(("free", dict(CountMax=17, DS=20 if q else 100, FsC=S([48000]),
+                              LookAheads=S([0, 8, 800]), FrameSel=S([8, 48]), Paths=S(["N"]), Consistent="FALSE",
                               AheadCap=10500 if q else 52000, WithBareGet="TRUE",
                               inv=THEOREMS.replace(" NoDrift", "").replace(" FeedIsPieces", "")), None))
+    if not q:
+        runs.append(("free_small_ring_all_rates", dict(CountMax=17, DS=20, FsC=S(FS), LookAheads=S([0, 8, 800]), FrameSel=S([1, 8, 48]),
+                                                       Paths=S(["N"]), Consistent="FALSE", AheadCap=10500, WithBareGet="TRUE",
+                                                       inv=THEOREMS.replace(" NoDrift", "").replace(" FeedIsPieces", "")), None))
     # (c) all three window oracles (validity flags, counters) on a short ring
-    runs.append(("pathmix", dict(CountMax=2, DS=6 if q else 8, FsC=S([48000] if q else FS), LookAheads=S([0, 800] if q else [0, 3, 800]),
-                                 FrameSel=S([4, 8] if q else [1, 4, 8, 24]), Paths=S(["N", "S", "X"]), Consistent="TRUE",
+    runs.append(("pathmix", dict(CountMax=2, DS=6 if q else 8, FsC=S([48000]), LookAheads=S([0, 800]),
+                                 FrameSel=S([8] if q else [4, 8]), Paths=S(["N", "S", "X"]), Consistent="TRUE",
                                  AheadCap=100000, WithBareGet="FALSE", inv=THEOREMS), None))
+    if not q:
+        runs.append(("pathmix_16k_24k", dict(CountMax=2, DS=6, FsC=S([16000, 24000]), LookAheads=S([0, 800]), FrameSel=S([8]),
+                                             Paths=S(["N", "S", "X"]), Consistent="TRUE", AheadCap=100000, WithBareGet="FALSE",
+                                             inv=THEOREMS), None))
     # (d) witnesses: each of these must be refuted (reachability of the interesting corners = vacuity guard)
     for w in WITNESSES:
         runs.append(("witness_" + w, dict(CountMax=17, DS=100, FsC=S([48000]), LookAheads=S([0, 8, 800]), FrameSel=S([4, 8, 48]),
@@ -57,7 +71,7 @@ def model_runs(ctx):
     def one(job):
         name, c, expect = job
         cfg = mc_cfg(ctx, "mc_" + name, **dict(c))
-        return job, vf.tlc("AnalysisRing_mc", cfg, workers=2 if expect else (4 if q else 8), timeout=1500, tag="G11_" + name)
+        return job, vf.tlc("AnalysisRing_mc", cfg, workers=2 if expect else (4 if q else 6), timeout=1500, heap="4g", tag="G11_" + name)
     res = vf.parallel(one, runs, nproc=4 if q else 2)
     closed = {}
     for (name, c, expect), r in res:
